@@ -382,6 +382,21 @@ func main() {
 			}
 		}
 	}
+	// A2d: inputs of several megabytes (a size cap inside ReadFile would silently drop what lies beyond it): structs one per
+	// line, and one struct followed by megabytes of line comments; the appended-definition test sees the end of each
+	for _, mib := range []int{3, 5, 9} {
+		var sb strings.Builder
+		for i := 0; sb.Len() < mib<<20; i++ {
+			fmt.Fprintf(&sb, "struct ZqL%07d { int32 a; }\n", i)
+		}
+		jobs = append(jobs, job{sb.String(), "megabytes", fmt.Sprintf("%d-MiB-of-structs", mib), "struct"})
+		var cb strings.Builder
+		cb.WriteString("struct ZqHead { int32 a; }\n")
+		for cb.Len() < mib<<20 {
+			cb.WriteString("// 0123456789 0123456789 0123456789 0123456789 0123456789 0123456\n")
+		}
+		jobs = append(jobs, job{cb.String(), "megabytes", fmt.Sprintf("%d-MiB-of-comments", mib), "comment"})
+	}
 	// A2b: well-formed texts of the C11 alphabet followed by every "tail" that leaves the tokenizer in a bad state
 	tails := []string{"/* unterminated", "\"unterminated", "-", "1.", "0x", "1e", "/", "<", ">", "\x80", "@", "-i", "-in", "/* c */", "// c", "/* c */ ", "\t", " ", "\r", "\r\n", ";", "}", "]", ")", "1", "a", "\"s\"", "->"}
 	for _, d := range textgen.Alphabet(0) {
